@@ -314,7 +314,22 @@ func (dq *Deque[T]) confProducer(direction dqDirection, blocking bool) fun.Produ
 			current = dq.root
 		}
 
-		if current.getNextOrPrevious(direction) == dq.root && blocking {
+		for {
+			// an element that is popped while it is the cursor
+			// keeps its links, but nothing that is pushed later
+			// is linked behind it: fall back to the nearest
+			// element, in the direction the iteration came
+			// from, that is still in the deque (or to the root.)
+			for !current.isRoot() && !current.attached() {
+				current = current.getNextOrPrevious(!direction)
+			}
+
+			if current.getNextOrPrevious(direction) != dq.root || !blocking {
+				break
+			}
+
+			// returns when there is a new neighbor or when the
+			// cursor itself was popped, which needs another look.
 			if err := current.wait(ctx, direction); err != nil {
 				return out, err
 			}
@@ -453,6 +468,11 @@ type element[T any] struct {
 
 func (it *element[T]) isRoot() bool { return it.root || it == it.list.root }
 
+// attached reports whether the element is still linked into its deque
+// (pop leaves the element's own links intact but unlinks it from its
+// neighbors.) Callers must hold the list's lock.
+func (it *element[T]) attached() bool { return it.prev.next == it && it.next.prev == it }
+
 // this is just to be able to make the wait method generic.
 func (it *element[T]) getNextOrPrevious(direction dqDirection) *element[T] {
 	if direction == dqPrev {
@@ -494,7 +514,7 @@ func (it *element[T]) wait(ctx context.Context, direction dqDirection) error {
 	defer cancel()
 
 	next := it.getNextOrPrevious(direction)
-	for next == it.getNextOrPrevious(direction) {
+	for next == it.getNextOrPrevious(direction) && (it.isRoot() || it.attached()) {
 		if it.list.closed {
 			return ErrQueueClosed
 		}
